@@ -5,6 +5,7 @@ import (
 	"fmt"
 	"io"
 	"math/big"
+	"runtime"
 	"runtime/debug"
 	"sort"
 	"strings"
@@ -152,6 +153,8 @@ var (
 )
 
 type world struct {
+	rmProbes     []rmProbe
+	rmLate       []chan rmProbe
 	c            *Case
 	o            *Opts
 	cc           *fcc
@@ -637,6 +640,7 @@ func (w *world) doState(sc *fsc, s connectivity.State) {
 			}
 			sl.conn, sl.st, sl.alive = sc, connectivity.Ready, true
 			sl.lastResp, sl.de, sl.k, sl.refreshing, sl.repl = time.Now(), 0, sl.k+1, false, nil
+			w.applyRemoveProbes(what, old)
 			w.labels["swap"]++
 			sl.swaps++
 			w.anySwap = true
@@ -1341,6 +1345,9 @@ func Exec(c *Case, o *Opts) (res Result) {
 	w := &world{c: c, o: o, cc: cc, aff: map[string]int{}, standin: map[string]int{}, tainted: map[string]bool{}, labels: map[string]int{}}
 	res.Labels = w.labels
 	CurCase.Store(c)
+	if c.RmProbe && o.Props["C07"] {
+		cc.onRemove = w.removeProbe
+	}
 	defer func() {
 		InOp.Store(false)
 		for _, cl := range w.calls {
@@ -1517,4 +1524,88 @@ func (w *world) finish() {
 		seen[s] = true
 	}
 	w.labels["drain-check"]++
+}
+
+// ---- a call started by another goroutine while the library is handing the old connection to RemoveSubConn ----
+
+type rmProbe struct {
+	sc  balancer.SubConn
+	err error
+}
+
+// removeProbe runs inside fcc.RemoveSubConn. A plain pick on the most recently published picker is started on
+// another goroutine (the way a concurrent RPC would); it completes at once with success. It is given a short real
+// time to finish; if it waits for a lock the calling library code holds, it is joined after the call has returned.
+func (w *world) removeProbe(removed balancer.SubConn) {
+	var pk balancer.Picker
+	if n := len(w.cc.pubs); n > 0 {
+		pk = w.cc.pubs[n-1].Picker
+	} else if n := len(w.pubs); n > 0 {
+		pk = w.pubs[n-1].picker
+	}
+	if pk == nil || w.cfg.WM < 50 {
+		// with a low watermark the extra call could find every channel saturated and make the pool grow, which the
+		// model of this step does not expect
+		return
+	}
+	ch := make(chan rmProbe, 1)
+	go func() {
+		var out rmProbe
+		defer func() {
+			if r := recover(); r != nil {
+				out.err = fmt.Errorf("panic: %v", r)
+			}
+			ch <- out
+		}()
+		res, err := pk.Pick(balancer.PickInfo{FullMethodName: "/plain", Ctx: context.Background()})
+		out.sc, out.err = res.SubConn, err
+		if err == nil && res.Done != nil {
+			res.Done(balancer.DoneInfo{})
+		}
+	}()
+	for i := 0; i < 20000; i++ {
+		select {
+		case r := <-ch:
+			w.rmProbes = append(w.rmProbes, r)
+			return
+		default:
+			runtime.Gosched()
+		}
+	}
+	w.rmLate = append(w.rmLate, ch)
+}
+
+// applyRemoveProbes evaluates the probes of this step after the library call has returned and the model has
+// performed the swap: a call started after RemoveSubConn(old) must not be placed on old; a placed probe is one
+// more response on its channel.
+func (w *world) applyRemoveProbes(what string, old balancer.SubConn) {
+	for _, ch := range w.rmLate {
+		r := <-ch
+		w.labels["remove-probe-had-to-wait-for-the-callback"]++
+		if r.err == nil {
+			w.noteProbeResponse(r.sc)
+		}
+	}
+	w.rmLate = nil
+	for _, r := range w.rmProbes {
+		w.labels["remove-probe"]++
+		if r.err != nil {
+			w.labels["remove-probe-not-placed"]++
+			continue
+		}
+		if r.sc == old {
+			w.fail("C07", "A.swap.order", "%s: a call started while the old connection %v was being handed to RemoveSubConn was placed on that connection (the replacement had not taken over yet)", what, old)
+		}
+		w.noteProbeResponse(r.sc)
+	}
+	w.rmProbes = nil
+}
+
+func (w *world) noteProbeResponse(sc balancer.SubConn) {
+	for _, sl := range w.slots {
+		if sl.alive && balancer.SubConn(sl.conn) == sc {
+			sl.lastResp, sl.de, sl.k = time.Now(), 0, 0
+			w.labels["remove-probe-placed"]++
+		}
+	}
 }
